@@ -204,6 +204,13 @@ class GeminiClient:
             # If TOFU is enabled, verify the certificate
             if self.tofu_db:
                 cert = protocol.get_peer_certificate()
+                if cert is None:
+                    # Without a readable certificate there is nothing to pin or to
+                    # compare with the pin: never treat the host as trusted
+                    raise ConnectionError(
+                        f"Could not read the certificate presented by "
+                        f"{parsed.hostname}:{parsed.port}; refusing connection (TOFU)"
+                    )
                 if cert:
                     is_valid, message = self.tofu_db.verify(
                         parsed.hostname, parsed.port, cert
@@ -399,6 +406,13 @@ class GeminiClient:
             # If TOFU is enabled, verify the certificate
             if self.tofu_db:
                 cert = protocol.get_peer_certificate()
+                if cert is None:
+                    # Without a readable certificate there is nothing to pin or to
+                    # compare with the pin: never treat the host as trusted
+                    raise ConnectionError(
+                        f"Could not read the certificate presented by "
+                        f"{parsed.hostname}:{parsed.port}; refusing connection (TOFU)"
+                    )
                 if cert:
                     is_valid, message = self.tofu_db.verify(
                         parsed.hostname, parsed.port, cert
